@@ -193,6 +193,11 @@ func (c *caseCtx) partPush(spec caseSpec, hostile bool) {
 			ctMode = "ct-offered+detection-off"
 		}
 	}
+	// header names are case-insensitive: the server may spell an offered header name any way it likes
+	if c.idx%4 >= 2 {
+		c.srv.ActionChunked = []string{"transfer-encoding", "Transfer-Encoding", "TRANSFER-ENCODING"}[c.idx%3]
+		ctMode += "+chunked-offered-as-" + c.srv.ActionChunked
+	}
 	c.must(g.Dir, "config", "lfs.transfer.batchsize", fmt.Sprint(batch))
 	mode := pushFaultModes[r.Intn(len(pushFaultModes))]
 	if mode == "verify-401" {
